@@ -9,23 +9,29 @@ the property check reports a broken proof obligation.  Targets are listed in TAR
 Python annotations such as `tuple` are too coarse).
 
 Supported subset
-  types       int -> Z, str -> string, bool, tuple of fixed size (t[0], t[1] with constant index), list (elements of any
+  types       int -> Z, str -> string (s.find(t), s[a:b] with Python's wrap-and-clamp, s[i] with IndexError = None, `t in s`, len, +,
+              f-strings: PyLib.py_find / py_slice / py_index / py_contains), bool, tuple of fixed size (t[0], t[1] with constant index), list (elements of any
               type, `[]`, `.append(x)`, `+`, `len`), dict[str,int] -> PyLib.dict (`k in d`, `d[k]`, `d[k] = v`, `d[k] += v`),
               `self.<attr>` of a declared type is a variable `self_<attr>`; attributes listed under `state` are returned
               next to the result (the function mutates them)
-  expressions int/str/bool constants, names, + - * on int, + on str/list, unary - / not, comparisons == != < <= > >=
-              (chained), `in` / `not in` on dict and list of str, short-circuit and/or, tuples, f-strings of str/int
-              pieces without format spec, len()
+  expressions int/str/bool constants, names, + - * on int, `%` on int (ZeroDivisionError = None), + on str/list, unary - / not,
+              comparisons == != < <= > >= (chained), `in` / `not in` on dict, list of str and str, short-circuit and/or,
+              `a if c else b`, tuples, f-strings of str/int pieces without format spec, len()
   statements  assignment / augmented assignment to a name, `self.<attr>` or `d[k]`; `x.append(e)`; if/elif/else (the rest of the
               block is duplicated into both branches, so early `return` is fine); `return e`;
               `for x in xs` / `for i, x in enumerate(xs)` -> fold_left over a tuple of the loop-carried variables
               (body must be total); `while c:` -> Fixpoint on explicit fuel (TARGETS[..]['fuel']), exhaustion = None
   partiality  a function that contains `d[k]` loads or `while` returns `option`: KeyError / fuel exhaustion = None.
-              Partial operations are hoisted in evaluation order and rejected in short-circuited positions.
+              Partial operations are hoisted in evaluation order; an operand that Python evaluates conditionally (2nd.. operand of
+              and/or, branches of an if-expression) is translated in its own scope and the whole expression becomes one
+              option-valued computation, so a skipped operand cannot raise in the model either.
   rejected    everything else, in particular: reading a variable that is not definitely assigned (a loop-local or
               branch-local variable read after the loop / in another iteration), `return` inside a loop, aliasing of
-              lists/dicts (`a = b`), list indexing/slicing, calls other than len/append/enumerate, try/with/lambda/
-              comprehensions, default arguments, a loop body that mutates the sequence it iterates over.
+              lists/dicts (`a = b`), list indexing/slicing, calls other than len/append/enumerate/str.find, try/with/lambda/
+              comprehensions, non-constant default arguments, a loop body that mutates the sequence it iterates over.
+  not done    BaseBackend._solve_euler/_solve_heun (integer cadence): the bookkeeping is interleaved with numpy statements
+              (state_rec[idx, :] = y, y += dt*rhs, func(...)); translating it would need a hand-written table saying which
+              statements are abstracted to events, i.e. the faithfulness would rest on that table and not on the translator.
   note        a mutation of an argument is visible to the model's caller only through `state` or the returned value.
 """
 import ast, hashlib, os, re, sys
@@ -46,6 +52,8 @@ TARGETS = [
          fuel="(S (List.length self__node_names))"),
     dict(name="get_unique_label", file="pyrates/backend/parser.py", cls=None, func="get_unique_label",
          types={"label": STR, "labels": DICT}),
+    dict(name="replace", file="pyrates/backend/parser.py", cls=None, func="replace",
+         types={"eq": STR, "term": STR, "replacement": STR, "rhs_only": BOOL, "lhs_only": BOOL}, fuel="(S (S (String.length eq)))"),
 ]
 
 class Unsupported(Exception): pass
@@ -98,7 +106,24 @@ class Tr:
         if self.total_ctx: raise Unsupported(f"partial operation ({what}) inside a for body")
         if not self.partial: raise NeedPartial()
     # ---------------------------------------------------------------- expressions: returns (term, type)
-    def ex(self, e, hoist=True):
+    # Partial operations (d[k], s[i]) are hoisted, in evaluation order, into the bind list of the current scope.  An operand that
+    # Python evaluates only conditionally (2nd.. operand of and/or, branches of `a if c else b`) is translated in a scope of its
+    # own; if it needs binds the whole and/or/if-expression becomes ONE option-valued computation that is hoisted itself.
+    def scoped(self, e):
+        saved, self.binds = self.binds, []
+        a, ta = self.ex(e)
+        b, self.binds = self.binds, saved
+        return a, ta, b
+    @staticmethod
+    def opt(term, binds):
+        body = f"Some {term}"
+        for t, p in reversed(binds): body = f"py_bind {p} (fun {t} => {body})"
+        return f"({body})"
+    def hoisted(self, what, term, t):
+        self.need_partial(what)
+        v = self.fresh("t"); self.binds.append((v, term))
+        return v, t
+    def ex(self, e):
         if isinstance(e, ast.Constant):
             v = e.value
             if isinstance(v, bool): return ("true" if v else "false"), BOOL
@@ -108,58 +133,84 @@ class Tr:
             if nm(e) not in self.env: raise Unsupported(f"read of `{nm(e)}`, which is not definitely assigned here")
             return nm(e), self.env[nm(e)]
         if isinstance(e, ast.BinOp):
-            (a, ta), (b, tb) = self.ex(e.left, hoist), self.ex(e.right, hoist)
+            (a, ta), (b, tb) = self.ex(e.left), self.ex(e.right)
             op = {ast.Add: "+", ast.Sub: "-", ast.Mult: "*"}.get(type(e.op))
             if op and ta == Z and tb == Z: return f"({a} {op} {b})%Z", Z
             if op == "+" and ta == STR and tb == STR: return f"({a} ++ {b})%string", STR
             if op == "+" and ta[0] == "list" and same(ta, tb): return f"({a} ++ {b})%list", ta
+            if isinstance(e.op, ast.Mod) and ta == Z and tb == Z:                       # ZeroDivisionError -> None
+                return self.hoisted("a % b", f"(py_mod {a} {b})", Z)
         if isinstance(e, ast.UnaryOp):
-            a, ta = self.ex(e.operand, hoist)
+            a, ta = self.ex(e.operand)
             if isinstance(e.op, ast.USub) and ta == Z: return f"(- {a})%Z", Z
             if isinstance(e.op, ast.Not) and ta == BOOL: return f"(negb {a})", BOOL
         if isinstance(e, ast.BoolOp):
-            parts = [self.ex(v, hoist and i == 0) for i, v in enumerate(e.values)]
-            if all(t == BOOL for _, t in parts):
-                return "(" + (" && " if isinstance(e.op, ast.And) else " || ").join(p for p, _ in parts) + ")", BOOL
+            a0, t0 = self.ex(e.values[0])
+            rest = [self.scoped(v) for v in e.values[1:]]
+            if t0 != BOOL or any(t != BOOL for _, t, _ in rest): raise Unsupported("and/or on non-bool operands")
+            conj = isinstance(e.op, ast.And)
+            if not any(b for _, _, b in rest):
+                return "(" + (" && " if conj else " || ").join([a0] + [a for a, _, _ in rest]) + ")", BOOL
+            sc = lambda c, k: f"(if {c} then {k} else Some false)" if conj else f"(if {c} then Some true else {k})"
+            term = self.opt(rest[-1][0], rest[-1][2])
+            for a, _, b in reversed(rest[:-1]):
+                v = self.fresh("t"); term = f"(py_bind {self.opt(a, b)} (fun {v} => {sc(v, term)}))"
+            return self.hoisted("and/or with a partial operand", sc(a0, term), BOOL)
+        if isinstance(e, ast.IfExp):
+            c, tc = self.ex(e.test)
+            (a, ta, ba), (b, tb, bb) = self.scoped(e.body), self.scoped(e.orelse)
+            if tc != BOOL or not same(ta, tb): raise Unsupported("if-expression: non-bool test or branches of different types")
+            if not ba and not bb: return f"(if {c} then {a} else {b})", ta
+            return self.hoisted("if-expression with a partial branch", f"(if {c} then {self.opt(a, ba)} else {self.opt(b, bb)})", ta)
         if isinstance(e, ast.Compare):
-            terms = [self.ex(x, hoist and i < 2) for i, x in enumerate([e.left] + e.comparators)]
-            return "(" + " && ".join(self.cmp(op, terms[i], terms[i + 1]) for i, op in enumerate(e.ops)) + ")", BOOL
+            terms = [self.ex(e.left) + ([],), self.ex(e.comparators[0]) + ([],)] + [self.scoped(x) for x in e.comparators[1:]]
+            if any(t[2] for t in terms): raise Unsupported("partial operation in the tail of a chained comparison")
+            return "(" + " && ".join(self.cmp(op, terms[i][:2], terms[i + 1][:2]) for i, op in enumerate(e.ops)) + ")", BOOL
         if isinstance(e, ast.Tuple):
-            parts = [self.ex(x, hoist) for x in e.elts]
+            parts = [self.ex(x) for x in e.elts]
             return "(" + ", ".join(p for p, _ in parts) + ")", TUP(*[t for _, t in parts])
         if isinstance(e, ast.List) and not e.elts: return "[]", LIST(None)
         if isinstance(e, ast.JoinedStr):
             out = []
             for v in e.values:
                 if isinstance(v, ast.FormattedValue) and v.conversion == -1 and v.format_spec is None:
-                    a, ta = self.ex(v.value, hoist)
+                    a, ta = self.ex(v.value)
                     if ta not in (STR, Z): raise Unsupported("f-string piece of type " + ty(ta))
                     out.append(a if ta == STR else f"(py_str_Z {a})")
-                else: out.append(self.ex(v, hoist)[0])
-            return "(" + " ++ ".join(out) + ")%string", STR
+                else: out.append(self.ex(v)[0])
+            return "(" + " ++ ".join(out or ['""']) + ")%string", STR
         if isinstance(e, ast.Subscript):
-            a, ta = self.ex(e.value, hoist)
+            a, ta = self.ex(e.value)
             if ta[0] == "tup" and isinstance(e.slice, ast.Constant) and type(e.slice.value) is int and 0 <= e.slice.value < len(ta[1]):
                 i, n = e.slice.value, len(ta[1])
                 t = a
                 for _ in range(n - 1 - i): t = f"(fst {t})"
                 return (f"(snd {t})" if i > 0 else t), ta[1][i]
+            if ta == STR and isinstance(e.slice, ast.Slice) and e.slice.step is None:        # s[a:b] is total (Python clamps)
+                lo, hi = [("None", Z) if x is None else self.ex(x) for x in (e.slice.lower, e.slice.upper)]
+                if lo[1] != Z or hi[1] != Z: raise Unsupported("slice bound that is not an int")
+                some = lambda x: x if x == "None" else f"(Some {x})"
+                return f"(py_slice {a} {some(lo[0])} {some(hi[0])})", STR
+            if ta == STR and not isinstance(e.slice, ast.Slice):                               # s[i]: IndexError -> None
+                k, tk = self.ex(e.slice)
+                if tk != Z: raise Unsupported("string index of type " + ty(tk))
+                return self.hoisted("s[i]", f"(py_index {a} {k})", STR)
             if ta == DICT:
-                k, tk = self.ex(e.slice, hoist)
+                k, tk = self.ex(e.slice)
                 if tk != STR: raise Unsupported("dict key of type " + ty(tk))
-                self.need_partial("d[k]")
-                if not hoist: raise Unsupported("partial operation d[k] in a short-circuited position")
-                t = self.fresh("t"); self.binds.append((t, f"(py_dget {a} {k})"))
-                return t, Z
+                return self.hoisted("d[k]", f"(py_dget {a} {k})", Z)
         if isinstance(e, ast.Call) and isinstance(e.func, ast.Name) and e.func.id == "len" and len(e.args) == 1 and not e.keywords:
-            a, ta = self.ex(e.args[0], hoist)
+            a, ta = self.ex(e.args[0])
             if ta[0] == "list": return f"(Z.of_nat (List.length {a}))", Z
             if ta == STR: return f"(Z.of_nat (String.length {a}))", Z
+        if isinstance(e, ast.Call) and isinstance(e.func, ast.Attribute) and e.func.attr == "find" and len(e.args) == 1 and not e.keywords:
+            (a, ta), (b, tb) = self.ex(e.func.value), self.ex(e.args[0])
+            if ta == STR and tb == STR: return f"(py_find {a} {b})", Z
         raise Unsupported("expression " + ast.dump(e)[:120])
     def cmp(self, op, x, y):
         (a, ta), (b, tb) = x, y
-        if isinstance(op, (ast.In, ast.NotIn)) and ta == STR and (tb == DICT or tb == LIST(STR)):
-            t = f"(py_din {b} {a})" if tb == DICT else f"(py_in_str {a} {b})"
+        if isinstance(op, (ast.In, ast.NotIn)) and ta == STR and (tb == DICT or tb == LIST(STR) or tb == STR):
+            t = f"(py_din {b} {a})" if tb == DICT else f"(py_contains {a} {b})" if tb == STR else f"(py_in_str {a} {b})"
             return t if isinstance(op, ast.In) else f"(negb {t})"
         sym = {ast.Eq: "=?", ast.LtE: "<=?", ast.Lt: "<?", ast.GtE: ">=?", ast.Gt: ">?"}.get(type(op))
         if ta == Z and tb == Z and sym: return f"({a} {sym} {b})%Z"
@@ -277,7 +328,8 @@ def translate(cfg):
     if len(fs) != 1: raise Unsupported(f"{len(fs)} definitions of {cfg['func']}")
     fn = fs[0]
     src = ast.get_source_segment(text, fn)
-    if fn.decorator_list or fn.args.vararg or fn.args.kwarg or fn.args.kwonlyargs or fn.args.defaults: raise Unsupported("decorators / defaults / *args")
+    if fn.decorator_list or fn.args.vararg or fn.args.kwarg or fn.args.kwonlyargs or not all(isinstance(d, ast.Constant) for d in fn.args.defaults):
+        raise Unsupported("decorators / non-constant defaults / *args")
     params = [a.arg for a in fn.args.args if a.arg != "self"] + [v for v in cfg["types"] if v.startswith("self_")]
     if set(params) != set(cfg["types"]): raise Unsupported(f"signature changed: {params}")
     params = [v for v in cfg.get("state", [])] + [p for p in params if p not in cfg.get("state", [])]
